@@ -119,6 +119,8 @@ TSStep ==
 
 TEStep ==
   /\ Log[l].e = "estep"
+  /\ Chk("XENUM") => Log[l].s1 = EnumNext(Log[l].s0, Log[l].in)
+  /\ (Primary = "XENUM" => TLCSet(2, TLCGet(2) \cup {<< Log[l].s0, Log[l].in >>}))
   /\ l' = l + 1 /\ UNCHANGED << tbl, mT, sT, full, lastFrame, lastHello, lastNi, lastIn >>
 
 (* C16: strict comparison with the dictionary model *)
